@@ -53,7 +53,9 @@ let read_out r s a o nb : out =
 
 (* model variants per case kind, in the harness's output order; all but "generic" are library models
    (Eigen branch); "dense" is the reference for the paths-agree clause *)
-let kinds_bel = ["dense"; "sparse"; "generic"]
+(* dense = POMDP::Model<MDP::Model>, sparse = POMDP::SparseModel<MDP::SparseModel>,
+   mixDS = POMDP::Model<MDP::SparseModel>, mixSD = POMDP::SparseModel<MDP::Model>, generic = user-defined *)
+let kinds_bel = ["dense"; "sparse"; "mixDS"; "mixSD"; "generic"]
 let kinds_reset = ["dense"; "dense-m"; "dense-c"; "sparse"; "sparse-m"; "sparse-d"; "sparse-c"; "generic"]
 
 (* Judges one set of outputs (one "ok …"/"throw …" block per model variant in [kinds]) against the POMDP
@@ -380,7 +382,7 @@ let judge _id (c : cursor) (r : cursor) : bool * string =
     let rec prefixes acc pre = function [] -> List.rev acc | x :: t -> let pre' = pre @ [x] in prefixes (pre' :: acc) pre' t in
     let pres = prefixes [] [] hn in
     let specs = List.map (fun pre -> let tau = tau_hist_r m b0 pre in (tau, vio_qred (qsum_l tau))) pres in
-    let kinds = ["dense"; "sparse"; "generic"] in
+    let kinds = kinds_bel in
     let outs = List.map (fun k ->
         (match next r with "ok" -> () | "THROW" -> oracle_fail "paths_agree" ("construct<" ^ k ^ ">") ("exception: " ^ next r) | t -> failwith ("unexpected token " ^ t));
         (k, read_n r len (fun r -> read_n r s next_x))) kinds in
